@@ -91,7 +91,7 @@ Proof.
     + fold (writes fd cs). rewrite H, wrote_wrote; reflexivity.
 Qed.
 
-(* ---- the theorem ---- *)
+(* ---- the theorem, from any start state with leftover files ---- *)
 Ltac fin := repeat match goal with
                    | H : In _ (_ :: _) |- _ => destruct H
                    | H : In _ [] |- _ => destruct H
@@ -106,6 +106,261 @@ Lemma in_crash_states m n st0 os c :
             In c (match run st0 p with Some st => map Some (crash m n st) | None => [None] end).
 Proof. unfold crash_states, crash_states_gen; intros H; apply in_flat_map in H; exact H. Qed.
 
+Lemma aget_aset_other {A} k k' (a : A) l : k <> k' -> aget k (aset k' a l) = aget k l.
+Proof.
+  intros N; induction l as [|[q v] t IH]; cbn.
+  - destruct (Nat.eqb_spec k k'); [contradiction|reflexivity].
+  - destruct (Nat.eqb_spec k' q); cbn.
+    + subst q. destruct (Nat.eqb_spec k k'); [contradiction|reflexivity].
+    + destruct (Nat.eqb k q); auto.
+Qed.
+Lemma aget_left_dir_none left : forall i j, (j < i \/ i + length left <= j) -> aget j (left_dir i left) = None.
+Proof.
+  induction left as [|b t IH]; intros i j H; cbn; auto.
+  destruct (Nat.eqb_spec j i); [cbn in H; lia|]. apply IH. cbn in H; lia.
+Qed.
+
+Section Leftovers.
+  Variable cur : option bytes.
+  Variable left : list bytes.
+  Let t := S (length left).
+
+  Definition hd_i : list (ino * inode) := match cur with Some b => [(0, clean_with b)] | None => [] end.
+  Definition hd_d : list (name * ino) := match cur with Some _ => [(0, 0)] | None => [] end.
+  Definition D0 := hd_d ++ left_dir 1 left.
+  Definition CR := [DCreate t t; DRename t tgt].
+  Definition D2 := apply_dirops D0 CR.
+  (* the states a save goes through: inode t is the temporary file *)
+  Definition mid (nd : inode) (dd : list (name * ino)) (pnd : list dirop) (f : list (fdn * fdt)) : fs :=
+    {| inodes := hd_i ++ aset t nd (left_inodes 1 left); ddir := dd; pend := pnd; fds := f; next := S t |}.
+
+  Lemma fresh_dir : aget t D0 = None.
+  Proof. unfold D0, hd_d, t; destruct cur; cbn; apply aget_left_dir_none; lia. Qed.
+  Lemma aget_t_inodes nd : aget t (hd_i ++ aset t nd (left_inodes 1 left)) = Some nd.
+  Proof. unfold hd_i, t; destruct cur; cbn; apply aget_aset_same. Qed.
+  Lemma aset_t_inodes nd nd' :
+    aset t nd' (hd_i ++ aset t nd (left_inodes 1 left)) = hd_i ++ aset t nd' (left_inodes 1 left).
+  Proof. unfold hd_i, t; destruct cur; cbn; rewrite aset_aset; reflexivity. Qed.
+  Lemma aset_t_init nd : aset t nd (hd_i ++ left_inodes 1 left) = hd_i ++ aset t nd (left_inodes 1 left).
+  Proof. unfold hd_i, t; destruct cur; cbn; reflexivity. Qed.
+
+  Definition fresh : inode := {| i_dur := []; i_vol := []; i_dirty := false |}.
+
+  Lemma open_left :
+    step (init_left cur left) (OOpen 0 t true true false) = Some (mid fresh D0 [DCreate t t] [(0, FFile t)]).
+  Proof.
+    unfold step, vdir, init_left; cbn [fds pend ddir inodes next apply_dirops fold_left aget].
+    unfold mid, D0, hd_i, hd_d.
+    destruct cur; cbn [aget app Nat.eqb]; unfold t at 1; cbn [Nat.eqb];
+      first [rewrite (aget_left_dir_none left 1 t) by (unfold t; lia)
+            |rewrite (aget_left_dir_none left 1 (S (length left))) by lia]; reflexivity.
+  Qed.
+  Lemma wrote_mid nd dd p f w :
+    wrote (mid nd dd p f) t nd w = mid {| i_dur := i_dur nd; i_vol := i_vol nd ++ w; i_dirty := true |} dd p f.
+  Proof. unfold wrote, with_inodes, mid; cbn [inodes ddir pend fds next]. rewrite aset_t_inodes. reflexivity. Qed.
+  Lemma fsync_mid nd dd p :
+    step (mid nd dd p [(0, FFile t)]) (OFsync 0) = Some (mid (clean_with (i_vol nd)) dd p [(0, FFile t)]).
+  Proof.
+    unfold step; cbn [fds mid aget Nat.eqb inodes]. rewrite aget_t_inodes.
+    unfold with_inodes, mid; cbn [inodes ddir pend fds next]. rewrite aset_t_inodes. reflexivity.
+  Qed.
+  Lemma rename_mid nd : step (mid nd D0 [DCreate t t] []) (ORename t tgt) = Some (mid nd D0 CR []).
+  Proof.
+    unfold step, vdir; cbn [mid pend ddir apply_dirops fold_left apply_dirop].
+    rewrite aget_aset_same. reflexivity.
+  Qed.
+  Lemma dirsync_mid nd : step (mid nd D0 CR [(1, FDir)]) (OFsync 1) = Some (mid nd D2 [] [(1, FDir)]).
+  Proof. reflexivity. Qed.
+
+  (* what the target entry shows *)
+  Lemma tgt_old ps : ps = [] \/ ps = [DCreate t t] ->
+    aget tgt (apply_dirops D0 ps) = match cur with Some _ => Some 0 | None => None end.
+  Proof.
+    intros [->| ->]; cbn [apply_dirops fold_left apply_dirop].
+    - unfold D0, hd_d, tgt; destruct cur; cbn; auto. apply aget_left_dir_none; lia.
+    - rewrite aget_aset_other by (unfold tgt, t; lia).
+      unfold D0, hd_d, tgt; destruct cur; cbn; auto. apply aget_left_dir_none; lia.
+  Qed.
+  Lemma tgt_new : aget tgt D2 = Some t.
+  Proof. unfold D2, CR; cbn [apply_dirops fold_left apply_dirop]. rewrite aget_aset_same. apply aget_aset_same. Qed.
+
+  Lemma view_old pick nd ps :
+    (forall b, pick (clean_with b) = [b]) -> ps = [] \/ ps = [DCreate t t] ->
+    content_in (hd_i ++ aset t nd (left_inodes 1 left)) (apply_dirops D0 ps) tgt pick = [cur].
+  Proof.
+    intros Hp Hps. unfold content_in. rewrite (tgt_old ps Hps). unfold hd_i. destruct cur; [|reflexivity].
+    cbn. rewrite Hp. reflexivity.
+  Qed.
+  Lemma view_new pick nd :
+    content_in (hd_i ++ aset t nd (left_inodes 1 left)) D2 tgt pick = map Some (pick nd).
+  Proof. unfold content_in. rewrite tgt_new, aget_t_inodes. reflexivity. Qed.
+
+  Lemma pickP_clean b : (fun x : inode => [i_vol x]) (clean_with b) = [b].
+  Proof. reflexivity. Qed.
+  Lemma pickW_clean b : power_pick prefixes (clean_with b) = [b].
+  Proof. reflexivity. Qed.
+
+  (* phase A: before the rename the target shows [cur] *)
+  Lemma crash_A m nd f p c : p = [] \/ p = [DCreate t t] -> In c (crash m tgt (mid nd D0 p f)) -> c = cur.
+  Proof.
+    intros Hp H. destruct m; unfold crash, crash_gen, vdir in H; cbn [mid inodes ddir pend] in H.
+    - rewrite (view_old _ nd p pickP_clean Hp) in H. fin.
+    - apply in_flat_map in H. destruct H as [ps [Hps H]].
+      rewrite (view_old _ nd ps pickW_clean) in H; [fin|].
+      destruct Hp as [->| ->]; cbn in Hps; fin.
+  Qed.
+  (* phase B: renamed, directory not synced, temporary inode synced with [new] *)
+  Lemma crash_B m new f c : In c (crash m tgt (mid (clean_with new) D0 CR f)) -> c = cur \/ c = Some new.
+  Proof.
+    intros H. destruct m; unfold crash, crash_gen, vdir in H; cbn [mid inodes ddir pend] in H.
+    - fold D2 in H. rewrite view_new in H. cbn in H. fin.
+    - apply in_flat_map in H. destruct H as [ps [Hps H]]. cbn in Hps. destruct Hps as [<-|[<-|[<-|[]]]].
+      + rewrite (view_old _ _ [] pickW_clean (or_introl eq_refl)) in H. fin.
+      + rewrite (view_old _ _ [DCreate t t] pickW_clean (or_intror eq_refl)) in H. fin.
+      + fold CR D2 in H. rewrite view_new in H. cbn in H. fin.
+  Qed.
+  (* phase C: directory synced *)
+  Lemma crash_C m new f c : In c (crash m tgt (mid (clean_with new) D2 [] f)) -> c = Some new.
+  Proof.
+    intros H. destruct m; unfold crash, crash_gen, vdir in H; cbn [mid inodes ddir pend apply_dirops fold_left] in H.
+    - rewrite view_new in H. cbn in H. fin.
+    - cbn [list_prefixes flat_map apply_dirops fold_left app] in H. rewrite view_new, app_nil_r in H. cbn in H. fin.
+  Qed.
+
+  (* the start state shows [cur] *)
+  Lemma crash_init m c : In c (crash m tgt (init_left cur left)) -> c = cur.
+  Proof.
+    unfold crash, crash_gen, vdir, init_left, content_in, tgt.
+    destruct m, cur; cbn; rewrite ?app_nil_r, ?(aget_left_dir_none left 1 0) by lia; cbn; intros H; fin.
+  Qed.
+
+  Lemma store_atomic_left : forall (new : bytes) (chunks : list bytes) (dirsync : bool)
+                                   (m : crash_model) (c : option (option bytes)),
+    concat chunks = new ->
+    In c (crash_states m tgt (init_left cur left) (store_ops_named t chunks dirsync)) ->
+    c = Some cur \/ c = Some (Some new).
+  Proof.
+    intros new chunks dirsync m c Hnew Hc.
+    apply in_crash_states in Hc; destruct Hc as [p [Hp Hc]].
+    unfold store_ops_named, crash_prefixes in Hp.
+    apply crash_prefixes_app in Hp; destruct Hp as [Hp|[q [Hq ->]]].
+    { (* before / right after the open of the temporary file *)
+      cbn in Hp; destruct Hp as [<-|[<-|[]]].
+      - cbn [run] in Hc. apply in_map_iff in Hc. destruct Hc as [x [<- Hx]]. left. f_equal. exact (crash_init _ _ Hx).
+      - cbn [run] in Hc. rewrite open_left in Hc. apply in_map_iff in Hc. destruct Hc as [x [<- Hx]].
+        left. f_equal. eapply crash_A; [right; reflexivity|exact Hx]. }
+    rewrite run_app in Hc. cbn [run] in Hc. rewrite open_left in Hc.
+    apply crash_prefixes_app in Hq; destruct Hq as [Hq|[r [Hr ->]]].
+    { (* inside the write phase *)
+      destruct (writes_crash chunks (mid fresh D0 [DCreate t t] [(0, FFile t)]) 0 t fresh q eq_refl (aget_t_inodes fresh) Hq) as [H|[w H]];
+        rewrite H in Hc; [|rewrite wrote_mid in Hc];
+        apply in_map_iff in Hc; destruct Hc as [x [<- Hx]]; left; f_equal; (eapply crash_A; [right; reflexivity|exact Hx]). }
+    (* after the write phase *)
+    rewrite run_app in Hc.
+    assert (Hw : exists nd, run (mid fresh D0 [DCreate t t] [(0, FFile t)]) (writes 0 chunks)
+                            = Some (mid nd D0 [DCreate t t] [(0, FFile t)]) /\ i_vol nd = new).
+    { destruct (writes_run chunks (mid fresh D0 [DCreate t t] [(0, FFile t)]) 0 t fresh eq_refl (aget_t_inodes fresh)) as [[-> H]|H].
+      - exists fresh; split; [exact H|cbn in Hnew; subst new; reflexivity].
+      - rewrite wrote_mid in H. eexists; split; [exact H|cbn; exact Hnew]. }
+    destruct Hw as [nd [Hw Hv]]. rewrite Hw in Hc. clear Hw.
+    (* the remaining prefixes: fsync, close, rename, [open dir, fsync dir, close] *)
+    assert (Post : forall r', In r' (crash_prefixes_gen all_lens ([OFsync 0; OClose 0; ORename t tgt] ++ (if dirsync then [OOpenDir 1; OFsync 1; OClose 1] else []))) ->
+              forall x, In x (match run (mid nd D0 [DCreate t t] [(0, FFile t)]) r' with Some st => map Some (crash m tgt st) | None => [None] end) ->
+              x = Some cur \/ x = Some (Some new)).
+    { intros r' Hr' x Hx.
+      assert (A : forall nd' f, In x (map Some (crash m tgt (mid nd' D0 [DCreate t t] f))) -> x = Some cur \/ x = Some (Some new))
+        by (intros nd' f Hi; apply in_map_iff in Hi; destruct Hi as [y [<- Hy]]; left; f_equal; eapply crash_A; [right; reflexivity|exact Hy]).
+      assert (B : forall f, In x (map Some (crash m tgt (mid (clean_with new) D0 CR f))) -> x = Some cur \/ x = Some (Some new))
+        by (intros f Hi; apply in_map_iff in Hi; destruct Hi as [y [<- Hy]]; destruct (crash_B _ _ _ _ Hy) as [->| ->]; auto).
+      assert (C : forall f, In x (map Some (crash m tgt (mid (clean_with new) D2 [] f))) -> x = Some cur \/ x = Some (Some new))
+        by (intros f Hi; apply in_map_iff in Hi; destruct Hi as [y [<- Hy]]; rewrite (crash_C _ _ _ _ Hy); auto).
+      destruct dirsync; cbn in Hr';
+        repeat (destruct Hr' as [<-|Hr']; [cbn [run] in Hx;
+                  rewrite ?fsync_mid, ?Hv in Hx; cbn [run] in Hx;
+                  change (step (mid (clean_with new) D0 [DCreate t t] [(0, FFile t)]) (OClose 0)) with (Some (mid (clean_with new) D0 [DCreate t t] [])) in Hx;
+                  cbn [run] in Hx; rewrite ?rename_mid in Hx; cbn [run] in Hx;
+                  change (step (mid (clean_with new) D0 CR []) (OOpenDir 1)) with (Some (mid (clean_with new) D0 CR [(1, FDir)])) in Hx;
+                  cbn [run] in Hx; rewrite ?dirsync_mid in Hx; cbn [run] in Hx;
+                  change (step (mid (clean_with new) D2 [] [(1, FDir)]) (OClose 1)) with (Some (mid (clean_with new) D2 [] [])) in Hx;
+                  cbn [run] in Hx; eauto |]); destruct Hr'. }
+    eapply Post; eauto.
+  Qed.
+  (* what a process crash before the rename leaves behind IS a start state of the same
+     family, with one more leftover file: so [store_atomic_left] applies to the next save,
+     and by induction to any number of interrupted saves *)
+  Lemma aset_fresh_append {A} k (v : A) l : aget k l = None -> aset k v l = l ++ [(k, v)].
+  Proof.
+    induction l as [|[q x] r IH]; cbn; auto. destruct (Nat.eqb k q); [discriminate|].
+    intros H; rewrite IH; auto.
+  Qed.
+  Lemma aget_left_inodes_none l : forall i j, (j < i \/ i + length l <= j) -> aget j (left_inodes i l) = None.
+  Proof.
+    induction l as [|b r IH]; intros i j H; cbn; auto.
+    destruct (Nat.eqb_spec j i); [cbn in H; lia|]. apply IH. cbn in H; lia.
+  Qed.
+  Lemma left_inodes_app l : forall i b, left_inodes i (l ++ [b]) = left_inodes i l ++ [(i + length l, clean_with b)].
+  Proof.
+    induction l as [|x r IH]; intros i b; cbn; [rewrite Nat.add_0_r; reflexivity|].
+    rewrite IH. replace (S i + length r) with (i + S (length r)) by lia. reflexivity.
+  Qed.
+  Lemma left_dir_app l : forall i b, left_dir i (l ++ [b]) = left_dir i l ++ [(i + length l, i + length l)].
+  Proof.
+    induction l as [|x r IH]; intros i b; cbn; [rewrite Nat.add_0_r; reflexivity|].
+    rewrite IH. replace (S i + length r) with (i + S (length r)) by lia. reflexivity.
+  Qed.
+  Lemma flatten_left_inodes l : forall i, map (fun e => (fst e, flatten_inode (snd e))) (left_inodes i l) = left_inodes i l.
+  Proof. induction l as [|x r IH]; intros i; cbn; [reflexivity|rewrite IH; reflexivity]. Qed.
+
+  Lemma crash_before_rename_is_next_start nd f :
+    recover_process (mid nd D0 [DCreate t t] f) = init_left cur (left ++ [i_vol nd]).
+  Proof.
+    unfold recover_process, vdir, mid, init_left, D0; cbn [inodes ddir pend fds next apply_dirops fold_left apply_dirop].
+    rewrite app_length; cbn [length]. replace (length left + 1) with t by (unfold t; lia).
+    f_equal.
+    - rewrite (aset_fresh_append t nd (left_inodes 1 left)) by (apply aget_left_inodes_none; unfold t; lia).
+      rewrite !map_app, flatten_left_inodes, left_inodes_app. cbn [map fst snd]. unfold hd_i, flatten_inode, clean_with, t.
+      destruct cur; cbn; reflexivity.
+    - rewrite left_dir_app. unfold hd_d, t. destruct cur; cbn [app].
+      + cbn [aset Nat.eqb]. rewrite aset_fresh_append by (apply aget_left_dir_none; lia). reflexivity.
+      + rewrite aset_fresh_append by (apply aget_left_dir_none; lia). reflexivity.
+  Qed.
+
+  (* the complete sequence (directory sync included) leaves the new content, durably *)
+  Lemma store_durable_left : forall (new : bytes) (chunks : list bytes),
+    concat chunks = new ->
+    exists st, run (init_left cur left) (store_ops_named t chunks true) = Some st /\
+               crash Process tgt st = [Some new] /\ crash Power tgt st = [Some new].
+  Proof.
+    intros new chunks Hnew. unfold store_ops_named.
+    rewrite run_app. cbn [run]. rewrite open_left. rewrite run_app.
+    assert (Hw : exists nd, run (mid fresh D0 [DCreate t t] [(0, FFile t)]) (writes 0 chunks)
+                            = Some (mid nd D0 [DCreate t t] [(0, FFile t)]) /\ i_vol nd = new).
+    { destruct (writes_run chunks (mid fresh D0 [DCreate t t] [(0, FFile t)]) 0 t fresh eq_refl (aget_t_inodes fresh)) as [[-> H]|H].
+      - exists fresh; split; [exact H|cbn in Hnew; subst new; reflexivity].
+      - rewrite wrote_mid in H. eexists; split; [exact H|cbn; exact Hnew]. }
+    destruct Hw as [nd [Hw Hv]]. rewrite Hw. clear Hw.
+    cbn [run app]. rewrite fsync_mid, Hv.
+    change (step (mid (clean_with new) D0 [DCreate t t] [(0, FFile t)]) (OClose 0)) with (Some (mid (clean_with new) D0 [DCreate t t] [])).
+    cbn [run]. rewrite rename_mid.
+    change (step (mid (clean_with new) D0 CR []) (OOpenDir 1)) with (Some (mid (clean_with new) D0 CR [(1, FDir)])).
+    cbn [run]. rewrite dirsync_mid.
+    change (step (mid (clean_with new) D2 [] [(1, FDir)]) (OClose 1)) with (Some (mid (clean_with new) D2 [] [])).
+    cbn [run]. eexists; split; [reflexivity|].
+    unfold crash, crash_gen, vdir; cbn [mid inodes ddir pend apply_dirops fold_left list_prefixes flat_map].
+    rewrite app_nil_r, !view_new. split; reflexivity.
+  Qed.
+End Leftovers.
+
+Lemma store_durable : forall (old : option bytes) (new : bytes) (chunks : list bytes),
+  concat chunks = new ->
+  exists st, run (init_fs old) (store_ops chunks true) = Some st /\
+             crash Process tgt st = [Some new] /\ crash Power tgt st = [Some new].
+Proof.
+  intros old new chunks Hnew. destruct (store_durable_left old [] new chunks Hnew) as [st H].
+  exists st. destruct old; exact H.
+Qed.
+
+(* the directory without leftovers: the statement of the first round *)
 Lemma store_atomic : forall (old : option bytes) (new : bytes) (chunks : list bytes) (dirsync : bool)
                             (m : crash_model) (c : option (option bytes)),
   concat chunks = new ->
@@ -113,62 +368,8 @@ Lemma store_atomic : forall (old : option bytes) (new : bytes) (chunks : list by
   c = Some old \/ c = Some (Some new).
 Proof.
   intros old new chunks dirsync m c Hnew Hc.
-  apply in_crash_states in Hc; destruct Hc as [p [Hp Hc]].
-  unfold store_ops, crash_prefixes in Hp.
-  apply crash_prefixes_app in Hp; destruct Hp as [Hp|[q [Hq ->]]].
-  { (* before / right after the open of the temporary file *)
-    cbn in Hp; destruct Hp as [<-|[<-|[]]]; destruct old, m; cbn in Hc; fin. }
-  apply crash_prefixes_app in Hq; destruct Hq as [Hq|[r [Hr ->]]].
-  { (* inside the write phase *)
-    destruct old as [o|].
-    - cbn [app run step init_fs] in Hc. cbn in Hc.
-      match type of Hc with context [run ?st q] =>
-        destruct (writes_crash chunks st 0 1 {| i_dur := []; i_vol := []; i_dirty := false |} q eq_refl eq_refl Hq) as [H|[w H]];
-        rewrite H in Hc end; destruct m; cbn in Hc; fin.
-    - cbn [app run step init_fs] in Hc. cbn in Hc.
-      match type of Hc with context [run ?st q] =>
-        destruct (writes_crash chunks st 0 1 {| i_dur := []; i_vol := []; i_dirty := false |} q eq_refl eq_refl Hq) as [H|[w H]];
-        rewrite H in Hc end; destruct m; cbn in Hc; fin. }
-  (* after the write phase *)
-  rewrite run_app in Hc. cbn [run step] in Hc.
-  destruct old as [o|].
-  - cbn in Hc.
-    match type of Hc with context [run ?st (writes 0 chunks ++ r)] =>
-      rewrite (run_app st) in Hc;
-      destruct (writes_run chunks st 0 1 {| i_dur := []; i_vol := []; i_dirty := false |} eq_refl eq_refl) as [[-> H]|H];
-      rewrite H in Hc end.
-    + cbn in Hnew; subst new. destruct dirsync; cbn in Hr; fin; destruct m; cbn in Hc; fin.
-    + rewrite Hnew in Hc. destruct dirsync; cbn in Hr; fin; destruct m; cbn in Hc; fin.
-  - cbn in Hc.
-    match type of Hc with context [run ?st (writes 0 chunks ++ r)] =>
-      rewrite (run_app st) in Hc;
-      destruct (writes_run chunks st 0 1 {| i_dur := []; i_vol := []; i_dirty := false |} eq_refl eq_refl) as [[-> H]|H];
-      rewrite H in Hc end.
-    + cbn in Hnew; subst new. destruct dirsync; cbn in Hr; fin; destruct m; cbn in Hc; fin.
-    + rewrite Hnew in Hc. destruct dirsync; cbn in Hr; fin; destruct m; cbn in Hc; fin.
-Qed.
-
-(* the complete sequence (directory sync included) leaves the new content, durably *)
-Lemma store_durable : forall (old : option bytes) (new : bytes) (chunks : list bytes),
-  concat chunks = new ->
-  exists st, run (init_fs old) (store_ops chunks true) = Some st /\
-             crash Process tgt st = [Some new] /\ crash Power tgt st = [Some new].
-Proof.
-  intros old new chunks Hnew. unfold store_ops.
-  rewrite run_app. cbn [run step].
-  destruct old as [o|]; cbn.
-  - match goal with |- context [run ?st (writes 0 chunks ++ ?r)] =>
-      rewrite (run_app st);
-      destruct (writes_run chunks st 0 1 {| i_dur := []; i_vol := []; i_dirty := false |} eq_refl eq_refl) as [[-> H]|H];
-      rewrite H end.
-    + cbn in Hnew; subst new. cbn. eexists; split; [reflexivity|split; reflexivity].
-    + rewrite Hnew. cbn. eexists; split; [reflexivity|split; reflexivity].
-  - match goal with |- context [run ?st (writes 0 chunks ++ ?r)] =>
-      rewrite (run_app st);
-      destruct (writes_run chunks st 0 1 {| i_dur := []; i_vol := []; i_dirty := false |} eq_refl eq_refl) as [[-> H]|H];
-      rewrite H end.
-    + cbn in Hnew; subst new. cbn. eexists; split; [reflexivity|split; reflexivity].
-    + rewrite Hnew. cbn. eexists; split; [reflexivity|split; reflexivity].
+  apply (store_atomic_left old [] new chunks dirsync m c Hnew).
+  destruct old; exact Hc.
 Qed.
 
 (* consequence for the next start: Loader.Load sees the old or the new session *)
